@@ -53,6 +53,7 @@ def run(prog, R, tier="quick", only_rule=None):
     c06h(prog, R, L)
     c06j(prog, R)
     c06l(prog, R)
+    c06n(prog, R, L)
     # a reader at a published snapshot keeps finding its version: the version GC bound (shared with C20.d)
     from rules.props import c20
     c20.c20d(prog, R, rid="C06.k")
@@ -588,3 +589,46 @@ def _chain_calls(prog, f, op, depth=8):
                     walk(fn_, a_, d - 1)
     walk(f, op, depth)
     return out
+
+
+def c06n(prog, R, L, rid="C06.n"):
+    """std's Mutex / RwLock are not re-entrant: a thread that acquires a lock it already holds blocks forever (and with it
+    everyone waiting for the locks it holds).  No call made while a lock of class X is (possibly) held may acquire X again -
+    unless the guard itself is handed to the callee by value."""
+    from rules.engine import guard_class
+    r = R.rule(rid, "no lock is acquired again while it is held (self-deadlock)", "L")
+    n = 0
+    bad = []
+    for p, f in sorted(prog.fns.items()):
+        if f.derived:
+            continue
+        for c in f.calls:
+            acq = L.call_may_acquire(c)
+            if not acq:
+                continue
+            held = {cls for (cls, _m) in L.held_at(f, c.bb, must=False)}
+            both = acq & held
+            if not both:
+                continue
+            # guards moved into the call travel with it
+            moved = set()
+            for t in c.arg_tys:
+                gc = guard_class(t, CLASSES)
+                if gc:
+                    moved.add(gc[0])
+            # a callee that starts by *receiving* the guard of that class
+            both -= moved
+            # the acquisition statement itself (lock().expect(..)) is not a nested acquisition
+            if c.sres.endswith(("Mutex::lock", "RwLock::read", "RwLock::write")) and not (
+                    {cls for (cls, _m) in L.held_at(f, c.bb, must=True)} & acq):
+                continue
+            n += 1
+            if both:
+                bad.append((p, c, sorted(both)))
+    for (p, c, both) in bad:
+        r.bad("%s|%s re-acquires %s" % (prog.fns.get(c.fn.root, c.fn).path, short(c.sres), "/".join(NAMES[b] for b in both)),
+              "%s is called while the %s lock may be held and may acquire it again: the thread blocks on itself, the operation "
+              "never returns and everything waiting for its locks hangs" % (short(c.sres), "/".join(NAMES[b] for b in both)), c.fn.where(c.bb))
+    r.ok("census|nested acquisitions of a held lock class: %d" % len(bad), "%d call sites examined under a held lock" % n, nontrivial=False)
+    r.check(not bad, "lock re-entrancy|no call under a held lock may take that lock again", "self-deadlock possible at %d site(s)" % len(bad), "")
+    r.floor(1)
